@@ -155,6 +155,9 @@ def run(ctx):
                 res.violation("LINE", FN, f"rfunc={use_rfunc},sort={use_sort},zero-neighbour-vertex={zero and 'line for' in why and not forward(order, de, ue, why.split()[2].rstrip(':'))}",
                               f"graph {gname} (universe order {order}, directed {de}, undirected {ue}): {why}", replay=replay(gname, use_rfunc, use_sort))
     res.rule("LINE", n)
+    from rules import hist
+    hist.run(ctx, res, 'C16', extra=('rules.histobs', 'text'))       # composition: histories through the public API against the reference model (rules/hist.py)
+    common.vacuity(res, "HISTORY", 2500)
     common.vacuity(res, "LINE", 100)
     res.analysed = common.analysed(ctx, [FN])
     res.explanation = ("The derived symbolic output equals the specified template for 0, 1, 2 and 3 neighbours; the accumulation loop treats every neighbour alike "
